@@ -241,6 +241,75 @@ def rule_R6_enum_wildcards(ctx, tabs):
                   "the wildcard arm (`Any` in the signature) no longer returns distance 0", ctx.loc(b))
 
 
+def rule_enum_pair_tables(ctx, tabs):
+    """R6: the decisive enum components are total tables over (observed variant, signature variant): distance 0 exactly when the
+    signature says Any or both sides are the same variant, rejection (None) otherwise.  Every pair is evaluated on every path of the
+    function (the paths' own conditions decide which pairs a path serves)"""
+    P = ctx.program
+    for ty, name, variants in (("IpVersion", "distance_ip_version", ("V4", "V6", "Any")), ("PayloadSize", "distance_payload_size", ("Zero", "NonZero", "Any"))):
+        try:
+            b = P.method1(ty, name)
+        except AnchorMissing as e:
+            ctx.cannot("R6", "%s::%s:table" % (ty, name), str(e))
+            continue
+        S = T.Slicer(b, P)
+        rows = []          # (conds, result) per path
+        bad = None
+        for (rb, j, term, _c) in TB.return_sites(b, P):
+            trails, trunc = PA.enumerate_paths(b, 0, 2000, stop={rb})
+            trails = [tr for tr in trails if tr[-1] == rb]
+            if trunc or not trails:
+                bad = "paths to a return not enumerable"
+                break
+            for tr in trails:
+                ps = PA.PathSlicer(b, tr, P)
+                ps.at(len(tr) - 1)
+                val = ps.rvalue(b.blocks[rb]["s"][j]["r"], rb, j) if j >= 0 else ps.def_term(0, rb, j, 0)
+                sc = _score_of(T.strip(val), tabs)
+                rows.append(([Q._norm_cmp(c) for c in PA.path_conds(P, b, S, tr)], sc))
+        if bad:
+            ctx.cannot("R6", "%s::%s:table" % (ty, name), bad, ctx.loc(b))
+            continue
+
+        def who(t):
+            t = T.strip(t)
+            while t[0] in ("deref", "ref"):
+                t = T.strip(t[1] if t[0] == "deref" else t[2])
+            return t[2] if t[0] == "param" and t[2] in ("self", "other") else None
+
+        def holds(c, s_, o_):
+            val = {"self": s_, "other": o_}
+            if c[0] == "variant" and who(c[1]):
+                return (val[who(c[1])] == c[2]) == c[3]
+            if c[0] == "variant_in" and who(c[1]):
+                return (val[who(c[1])] in c[2]) == c[3]
+            if c[0] == "cmp" and c[1] in ("Eq", "Ne") and {who(c[2]), who(c[3])} == {"self", "other"}:
+                return ((s_ == o_) == (c[1] == "Eq")) == c[4]
+            if c[0] == "bool" and T.strip(c[1])[0] == "const":
+                return T.strip(c[1])[1] == c[2]
+            return None
+        problems = []
+        for s_ in variants:
+            if s_ == "Any":
+                continue           # an observation is never `Any`
+            for o_ in variants:
+                got = set()
+                undecided = False
+                for conds, sc in rows:
+                    hs = [holds(c, s_, o_) for c in conds]
+                    if None in hs:
+                        undecided = True
+                    if all(h is not False for h in hs):
+                        got.add((sc[0], sc[2] if len(sc) > 2 else None))
+                want = ("Some", 0) if (o_ == "Any" or s_ == o_) else ("None", None)
+                if undecided:
+                    problems.append("(%s, %s): a condition on the way is not a test of the two variants" % (s_, o_))
+                elif got != {want}:
+                    problems.append("(%s, %s) yields %s, the signature semantics say %s" % (s_, o_, sorted(got, key=str), want))
+        ctx.check(not problems, "R6", "%s::%s:table" % (ty, name), "distance 0 iff signature is Any or the variants are equal, None otherwise (%d pairs)" % (2 * len(variants)),
+                  "%s::%s: %s" % (ty, name, "; ".join(problems[:3])), ctx.loc(b))
+
+
 def rule_R1(ctx):
     P = ctx.program
     b = P.method1("HttpDistance", "distance_expsw")
@@ -759,6 +828,9 @@ def rule_R8(ctx):
 
 
 def run(ctx):
+    from ..engine import report as _R
+    from . import C02 as _C02
+    _C02.rule_structural_equality(_R.Retag(ctx, "C02."))
     rule_R12(ctx)
     from . import _narrow as N
     N.narrowing_preserved(ctx, ctx.program, "R8", ("huginn_net_db",))
@@ -770,6 +842,7 @@ def run(ctx):
     rule_R1(ctx)
     rule_components(ctx, tabs)
     rule_R6_enum_wildcards(ctx, tabs)
+    rule_enum_pair_tables(ctx, tabs)
     rule_R4(ctx)
     rule_R5(ctx)
     rule_R7(ctx, tabs)
